@@ -64,6 +64,7 @@ def C01(ctx):
     ctx.floor("K4.reclaim-after-unlink", 20)
     scheme_rules(ctx)
     typestate.rules(ctx)
+    typestate.emptiness_predicates(ctx)
     return ("Decides structural necessary conditions of 'not destroyed while guarded', per scheme: publish-then-fence and scan order (fence, adopt abandoned "
             "nodes, gather, fence, reclaim) for hazard pointers/eras; validate-after-protect in acquire/acquire_if_equal (HP, LFRC) and era-after-load (HE); "
             "destruction control-dependent on the protection test (HP binary_search, HE era interval, stamp <= tail stamp, LFRC claim); epoch schemes: "
@@ -249,6 +250,7 @@ def C15(ctx):
     k1_rules(ctx, "C15")
     markedptr.rules(ctx)
     typestate.rules(ctx)
+    typestate.emptiness_predicates(ctx)
     ctx.only = ("K1.", "K7.", "K3.", "K13.", "HE.shared-slot")
     schemes.hazard_eras_rules(ctx)
     return ("Decides: marked_ptr round trip bit by bit for every mark width 1..32 and three upper/lower splits (abstract interpretation of the -O1 IR), "
